@@ -361,7 +361,7 @@ def run(ctx):
             # pairs of messages: interleaved deliveries
             red = [m for m in alpha if m[2] is True or m[3] is not None
                                        or isinstance(m[2], str)]
-            if ctx.quick:
+            if ctx.quick or n_pilots > 1:
                 # round trips double the messages in flight: singles only
                 red = [m for m in red if m[2] != 'rpc_round']
             for a, b in itertools.product(red, repeat=2):
